@@ -36,6 +36,9 @@ def generate(tier, seed, work, stats):
     cases = c08.grammar_cases(tier, seed, work, stats, families(tier), c08.POOLS)
     for prods in c08.random_grammars(1500 if tier == "quick" else 20000, seed + 9, maxp=6, maxb=5):
         cases.append(dict(prods=prods, vpool="upper", tpool="ab", family="random"))
+    # helper-name look-alikes for both kinds of helper variables of the normal form (terminal C, long bodies)
+    for prods in c08.random_grammars(600 if tier == "quick" else 8000, seed + 90, maxp=5, maxb=5):
+        cases.append(dict(prods=prods, vpool="freshC", tpool="Cterm", family="random-helper-names"))
     for c in cases:
         c["L"] = L(tier)
     cases += [c for c in core.record_tests(["/repo/pyformlang"], work, {"remove_useless_symbols", "remove_epsilon", "eliminate_unit_productions", "to_normal_form"}, stats) if "G" in c["recorded"][0]]
